@@ -116,6 +116,7 @@ type APIServer struct {
 	Dir    string
 	proc   *exec.Cmd // external mode: the real dirk binary
 	exited chan struct{}
+	fromIP string // DialFrom: source address of the next connection
 }
 
 // StartAPIServer builds a world (wallets W1 for client c1, W2 for client c2, distributed wallet DW for both) and
@@ -372,8 +373,19 @@ func (c lingerConn) Close() error {
 }
 
 func boundDialer(port int) func(context.Context, string) (net.Conn, error) {
+	return boundDialerIP("127.0.0.1", port)
+}
+
+// DialFrom opens a client connection whose SOURCE address is the given loopback address (any 127.x.y.z is local).
+func (a *APIServer) DialFrom(ctx context.Context, cred, ip string) (*grpc.ClientConn, error) {
+	a.fromIP = ip
+	defer func() { a.fromIP = "" }()
+	return a.dialPort(ctx, cred, -1)
+}
+
+func boundDialerIP(ip string, port int) func(context.Context, string) (net.Conn, error) {
 	return func(ctx context.Context, addr string) (net.Conn, error) {
-		d := net.Dialer{LocalAddr: &net.TCPAddr{IP: net.IPv4(127, 0, 0, 1), Port: port}, Control: func(_, _ string, rc syscall.RawConn) error {
+		d := net.Dialer{LocalAddr: &net.TCPAddr{IP: net.ParseIP(ip), Port: port}, Control: func(_, _ string, rc syscall.RawConn) error {
 			var serr error
 			if err := rc.Control(func(fd uintptr) { serr = syscall.SetsockoptInt(int(fd), syscall.SOL_SOCKET, syscall.SO_REUSEADDR, 1) }); err != nil {
 				return err
@@ -398,8 +410,10 @@ func (a *APIServer) dialPort(ctx context.Context, cred string, port int) (*grpc.
 		return tls.Certificate{Certificate: [][]byte{der}, PrivateKey: key}, err
 	}
 	var opts []grpc.DialOption
-	if port != 0 {
+	if port > 0 {
 		opts = append(opts, grpc.WithContextDialer(boundDialer(port)))
+	} else if port < 0 && a.fromIP != "" {
+		opts = append(opts, grpc.WithContextDialer(boundDialerIP(a.fromIP, 0)))
 	}
 	switch {
 	case cred == "plaintext":
